@@ -23,11 +23,11 @@ CLAIMED = {
    text="Seeded search over 3-D workloads x simulated schedules: the real voxel::render on the simulated executor versus a brute-force heightmap (Context::eval on every voxel, plus the voxels just above the grid to recognise the excluded columns) and f64 dual gradients for normals.",
    technique="deterministic simulation (seeded fork-join executor replacing rayon) + brute-force heightmap/gradient oracle"),
  "C09": dict(engine="E1-par-sim", ref="5/C09",
-   text="Seeded search over schedules and cancel instants: 2-D/3-D renders and octree meshing run on the simulated executor with pool sizes 1..=16, drawn split trees, item interleavings, stop-flag visibility and a cancel fired before the call / before executor item j / before poll j / never; results must equal the sequential run bit for bit, a pre-cancelled or post-cancel-polled run must return None, an uncancelled run must return Some. One pool execution in four is preemptive (segments on baton-passing OS threads, hand-over at sched points inside interpreter loops and before native calls), and one run in four is a shared-function simulation: mostly E5 (2-4 logical threads on clones of one function's tapes on the preemptive executor, each compared with its solo results), one in six of those E6, the ptrace step-sim (two REAL threads of a traced child process share one function; the simulator freezes thread A at a machine instruction of its choice - just before / just after each lock-prefixed instruction, xchg, fence or syscall A executes in the code under test, or a few instructions further - lets thread B run its whole operation list, resumes A; each thread must get its solo results; covers the native JIT code and synchronisation code that has no sched point). For small workloads (<= 40 polls) every cancel placement is enumerated for the sequential path and one pool. The thorough tier adds E4: shared interpreter tapes on 3 OS threads and the REAL rayon scheduler on tiny renders/meshes under Miri's seeded preemptive scheduler and data-race detector. A crash or a call that never returns is reported as a violation (child-process supervision, 30 s liveness watchdog).",
+   text="Seeded search over schedules and cancel instants: 2-D/3-D renders and octree meshing run on the simulated executor with pool sizes 1..=16, drawn split trees, item interleavings, stop-flag visibility and a cancel fired before the call / before executor item j / before poll j / never; results must equal the sequential run bit for bit, a pre-cancelled or post-cancel-polled run must return None, an uncancelled run must return Some. One pool execution in four is preemptive (segments on baton-passing OS threads, hand-over at sched points inside interpreter loops and before native calls), and one run in four is a shared-function simulation: mostly E5 (2-4 logical threads on clones of one function's tapes on the preemptive executor, each compared with its solo results), one in six of those E6, the ptrace step-sim (two REAL threads of a traced child process share one function; the simulator freezes thread A at a machine instruction of its choice - just before / just after each lock-prefixed instruction, xchg, fence or syscall A executes in the code under test, or a few instructions further - lets thread B run its whole operation list, resumes A; each thread must get its solo results; covers the native JIT code and synchronisation code that has no sched point; a share of the scenarios gets a deep pass that single-steps both threads, decodes every memory operand and also freezes A at its plain loads and stores to shared memory that B touches). For small workloads (<= 40 polls) every cancel placement is enumerated for the sequential path and one pool. The thorough tier adds E4: shared interpreter tapes on 3 OS threads and the REAL rayon scheduler on tiny renders/meshes under Miri's seeded preemptive scheduler and data-race detector. A crash or a call that never returns is reported as a violation (child-process supervision, 30 s liveness watchdog).",
    technique="deterministic simulation: seeded schedule and cancel-instant search with sequential reference model"),
 
  "C10": dict(engine="E2-reuse-history", ref="5/C10",
-   text="Seeded search over histories: 10-60 operations per run by 1-3 logical workers that keep their evaluator objects and workspaces and exchange recycled tape/function storage (including executable pages that must regrow, via the mmap granularity knob); after every operation the result is compared with the same call on fresh objects (reference model). Exploration is the right level: the property quantifies over unbounded histories of unlike functions, which the simulator samples, replays and minimises.",
+   text="Seeded search over histories: 10-60 operations per run by 1-3 logical workers that keep their evaluator objects and workspaces and exchange recycled tape/function storage (including executable pages that must regrow, via the mmap granularity knob); after every operation the result is compared with the same call on fresh objects (reference model); ageing bursts repeat one call 20 / 300 / 65 700 times on the kept objects so that use counters cross their 8- and 16-bit boundaries. Exploration is the right level: the property quantifies over unbounded histories of unlike functions, which the simulator samples, replays and minimises.",
    technique="deterministic simulation of reuse histories (seeded op/provenance sequences) vs fresh-object reference model"),
  "C04": dict(engine="E2-reuse-history", ref="5/C04",
    text="Same history simulator weighted towards chains of nested simplifications (depth <= 6): traces come from VM and JIT point/interval evaluators used with reused evaluator objects, children are produced with reused workspaces, recycled storage, other register budgets and RenderHandle's trace-keyed cache; every child is compared bit for bit with its parent at the traced point / at sample points of the traced box under point, float-slice and grad-slice evaluation.",
